@@ -134,6 +134,10 @@ func drainBatches(it obiiter.IBioSequence) ([]obiiter.BioSequenceBatch, bool) {
 }
 
 func replayC05(env *Env) {
+	if env.optInt("stress", 0) > 0 {
+		c05Stress(env)
+		return
+	}
 	cases := loadCases[streamCase](env.cases)
 	kinds := c05Workers()
 	// reference outputs per (kind, sizes): one worker, no gate
@@ -221,6 +225,72 @@ func replayC05(env *Env) {
 			env.sample(map[string]any{"worker": j.kind, "w": c.W, "emits": c.Emits})
 		}
 	})
+}
+
+// c05Stress: the pool without gates on very long streams of one-record batches (a window of a few nanoseconds
+// between two steps of a worker is met once in 10^4..10^5 batches).  Every batch number must come out once,
+// carrying what the one-worker run gives for it.
+func c05Stress(env *Env) {
+	n := env.optInt("stress", 200000)
+	rounds := env.optInt("stressrounds", 2)
+	mk := c05Workers()["revcomp_copy"]
+	ref := make([]string, n)
+	w1 := mk()
+	for k := 0; k < n; k++ {
+		sl, err := w1(obiseq.BioSequenceSlice{c05Read(k, 0)})
+		if err != nil || len(sl) != 1 {
+			panic(fmt.Sprint("reference worker: ", err, len(sl)))
+		}
+		ref[k] = sl[0].Id() + " " + sl[0].String()
+	}
+	for _, w := range []int{2, 5, 16} {
+		for r := 0; r < rounds; r++ {
+			cl := fmt.Sprintf("stress/w%d", w)
+			in := make([]obiiter.BioSequenceBatch, n)
+			for k := range in {
+				in[k] = obiiter.MakeBioSequenceBatch("verif", k, obiseq.BioSequenceSlice{c05Read(k, 0)})
+			}
+			pipe := source(in, ident(n)).MakeISliceWorker(mk(), true, w)
+			seen := make([]int, n)
+			var bad []string
+			done := make(chan struct{})
+			go func() {
+				defer close(done)
+				for pipe.Next() {
+					b := pipe.Get()
+					k := b.Order()
+					if k < 0 || k >= n {
+						bad = append(bad, fmt.Sprintf("batch number %d out of range", k))
+						continue
+					}
+					seen[k]++
+					if sl := b.Slice(); len(sl) != 1 || sl[0].Id()+" "+sl[0].String() != ref[k] {
+						if len(bad) < 5 {
+							bad = append(bad, fmt.Sprintf("batch %d does not carry the record the one-worker run gives for it", k))
+						}
+					}
+				}
+			}()
+			if !waitTimeout(done, 120*time.Second) {
+				env.fail("C05.pool.hang", cl, fmt.Sprintf("pool of %d workers on %d one-record batches did not terminate", w, n), map[string]any{"w": w, "n": n})
+				return
+			}
+			lost, dup := 0, 0
+			for _, c := range seen {
+				if c == 0 {
+					lost++
+				} else if c > 1 {
+					dup++
+				}
+			}
+			if lost > 0 || dup > 0 || len(bad) > 0 {
+				env.fail("C05.pool.batch_ownership", cl, fmt.Sprintf("pool of %d workers on %d one-record batches: %d batch numbers never came out, %d came out more than once; %v",
+					w, n, lost, dup, bad), map[string]any{"w": w, "n": n, "lost": lost, "dup": dup})
+			} else {
+				env.ok(cl)
+			}
+		}
+	}
 }
 
 func firstDiff(a, b string) string {
